@@ -493,4 +493,136 @@ theorem parse_render (e : Exp) (ps : Parens) : parse (render e ps) = some e := b
   unfold render
   rw [← toks_annot, parse_toks, erase_annot]
 
+/-! ## the viable-prefix automaton (`Spec.Grammar.firstBad`) -/
+
+/-- `ts` takes the automaton from "operand due" to "operand ended" at the same depth, in any context -/
+def Passes (ts : List Token) : Prop :=
+  ∀ (d i : Nat) (rest : List Token),
+    scan { expecting := true, depth := d } (ts ++ rest) i = scan { expecting := false, depth := d } rest (i + ts.length)
+
+theorem passes_wrap (ts : List Token) (h : Passes ts) : ∀ k, Passes (wrap k ts) := by
+  intro k
+  induction k with
+  | zero => exact h
+  | succ k ih =>
+    intro d i rest
+    simp only [wrap, List.cons_append, List.append_assoc, List.nil_append, scan, stepTok, if_true]
+    rw [ih (d + 1) (i + 1) (Token.rp :: rest)]
+    simp only [scan, stepTok]
+    simp only [Bool.not_false, Bool.true_and, Nat.zero_lt_succ, decide_true, if_true, Nat.add_sub_cancel,
+      List.length_cons, List.length_append, List.length_nil]
+    congr 1
+    omega
+
+theorem passes_un (u : UnOp) (ts : List Token) (h : Passes ts) : Passes (.sym u.sym :: ts) := by
+  intro d i rest
+  have hu : u.sym.isUnary = true := by cases u <;> rfl
+  simp only [List.cons_append, scan, stepTok, if_true, hu]
+  rw [h d (i + 1) rest]
+  simp only [List.length_cons]
+  congr 1
+  omega
+
+theorem passes_bin (o : BinOp) (a b : List Token) (ha : Passes a) (hb : Passes b) :
+    Passes (a ++ .sym o.sym :: b) := by
+  intro d i rest
+  have ho : o.sym.isBinary = true := by cases o <;> rfl
+  rw [List.append_assoc, ha d i]
+  simp only [List.cons_append, scan, stepTok, ho, if_true, Bool.false_eq_true, if_false]
+  rw [hb d (i + a.length + 1) rest]
+  simp only [List.length_append, List.length_cons]
+  congr 1
+  omega
+
+theorem passes_render (e : Exp) : ∀ ps need, Passes (renderAt e ps need) := by
+  induction e with
+  | atom n =>
+    intro ps need
+    simp only [renderAt]
+    apply passes_wrap
+    intro d i rest
+    simp [scan, stepTok]
+  | un u e ih =>
+    intro ps need
+    simp only [renderAt]
+    have hb := passes_un u _ (ih (ps.child 0) 10)
+    split
+    · split
+      · exact passes_wrap _ hb 1
+      · exact hb
+    · exact passes_wrap _ hb _
+  | bin o l r ihl ihr =>
+    intro ps need
+    simp only [renderAt]
+    have hb := passes_bin o _ _ (ihl (ps.child 0) o.needL) (ihr (ps.child 1) o.needR)
+    split
+    · split
+      · exact passes_wrap _ hb 1
+      · exact hb
+    · exact passes_wrap _ hb _
+
+/-- every rendering is a complete expression for the automaton -/
+theorem firstBad_render (e : Exp) (ps : Parens) : firstBad (render e ps) = none := by
+  have h := passes_render e ps 0 0 0 []
+  simp only [List.append_nil] at h
+  unfold firstBad render PState.start
+  rw [h]
+  simp [scan, PState.final]
+
+theorem scan_append (a b : List Token) : ∀ (st : PState) (i : Nat),
+    scan st (a ++ b) i = match scan st a i with
+      | .ok st' => scan st' b (i + a.length)
+      | .error j => .error j := by
+  induction a with
+  | nil => intro st i; simp [scan]
+  | cons t r ih =>
+    intro st i
+    simp only [List.cons_append, scan]
+    cases hs : stepTok st t with
+    | none => simp
+    | some st' =>
+      simp only [ih st' (i + 1), List.length_cons]
+      cases scan st' r (i + 1) with
+      | error j => rfl
+      | ok st'' => simp only; congr 1; omega
+
+/-- closing everything that is open: an atom if an operand is due, then the open parentheses -/
+def completion (st : PState) : List Token :=
+  (if st.expecting then [Token.atom 0] else []) ++ List.replicate st.depth Token.rp
+
+theorem scan_closers (d : Nat) : ∀ i, ∃ j, scan { expecting := false, depth := d } (List.replicate d Token.rp) i
+    = .ok { expecting := false, depth := 0 } ∧ j = i + d := by
+  induction d with
+  | zero => intro i; exact ⟨i, rfl, rfl⟩
+  | succ k ih =>
+    intro i
+    obtain ⟨j, h, _⟩ := ih (i + 1)
+    refine ⟨i + (k + 1), ?_, rfl⟩
+    simp only [List.replicate_succ, scan, stepTok]
+    simpa using h
+
+/-- a prefix the automaton has not rejected CAN be continued to a complete expression … -/
+theorem accepted_prefix_viable (p : List Token) (st : PState) (h : scan .start p 0 = .ok st) :
+    firstBad (p ++ completion st) = none := by
+  unfold firstBad
+  rw [scan_append, h]
+  simp only [Nat.zero_add]
+  obtain ⟨e, d⟩ := st
+  obtain ⟨_, hc, _⟩ := scan_closers d (p.length + (if e then 1 else 0))
+  cases e with
+  | true =>
+    simp only [completion, if_true, List.cons_append, List.nil_append, scan, stepTok]
+    simp only [if_true] at hc
+    rw [hc]; simp [PState.final]
+  | false =>
+    simp only [completion, Bool.false_eq_true, if_false, List.nil_append]
+    simp only [Bool.false_eq_true, if_false, Nat.add_zero] at hc
+    rw [hc]; simp [PState.final]
+
+/-- … and one that it has rejected cannot: the rejected token is the first that no expression continues with -/
+theorem rejected_prefix_dead (p suffix : List Token) (i : Nat) (h : scan .start p 0 = .error i) :
+    firstBad (p ++ suffix) = some i := by
+  unfold firstBad
+  rw [scan_append, h]
+
 end GoluaVerif.Proofs.ParseExp
